@@ -121,7 +121,10 @@ func zzMerge(nw int) {
 		}
 	}
 	vpAssert(failed == nerr, "writers-get-their-groups-result")
-	vpAssert(db.seq == 100+uint64(okRecords), "sequence-advances-by-successful-records")
+	// sequence numbers are consumed once per logged record (a failed group's
+	// numbers are never reused: its record may be in the journal file)
+	_ = okRecords
+	vpAssert(db.seq == 100+uint64(total), "sequence-advances-once-per-logged-record")
 	// successful writes are in the buffer, failed ones are not
 	for i := 0; i < nw; i++ {
 		_, err := db.get(nil, nil, []byte{byte('a' + i)}, db.seq, nil)
